@@ -243,6 +243,128 @@ def handle_conv(kind, f):
             + ("|" + W.state_str(p) if guards else ""))
 
 
+def handle_defaults(f):
+    """ND|id|<json> : decorated functions that HAVE DEFAULT PARAMETERS (generator and oracle: props/c17_defaults.py).
+    run = {"res": r, "calls": [{"params": [{"name", "kind": "pos"|"var"|"kwonly", "default": node?}], "body": "fold"|"echo",
+    "args": [node], "kwargs": {name: node}}]}; node = ["i", n] | ["b", 0|1] | ["f", m, e] | ["n"] (None) | ["s", text] |
+    ["l"|"t", [node]] | ["d", {k: node}].  The function is a real `def` with the default OBJECTS in its signature.  Per call:
+    the public values added, what every parameter looked like when the body received it, whether an omitted parameter arrived as
+    the default object itself, the default objects before/after, the returned value, and what the undecorated function (own
+    fresh defaults) returns on freshly built arguments."""
+    try:
+        j = json.loads(f[2])
+        res = j.get("res", 8)
+        W.reset({"p": W.DEFAULT_P, "bl": 32, "res": res})
+        p = W.DEFAULT_P
+
+        def mk(a):
+            t = a[0]
+            if t == "n": return None
+            if t == "s": return a[1]
+            if t == "l": return [mk(x) for x in a[1]]
+            if t == "t": return tuple(mk(x) for x in a[1])
+            if t == "d": return {k: mk(v) for k, v in a[1].items()}
+            return build(a)
+
+        def desc(x):
+            if x is None: return ["n"]
+            if isinstance(x, str): return ["s", x]
+            if isinstance(x, list): return ["l", [desc(y) for y in x]]
+            if isinstance(x, tuple): return ["t", [desc(y) for y in x]]
+            if isinstance(x, dict): return ["d", {str(k): desc(v) for k, v in x.items()}]
+            return plainval(x, res)
+
+        def numeric(x):
+            return isinstance(x, (int, float, LinComb, LinCombFxp, LinCombBool))
+
+        def make(c, extra):
+            """the function under test: `def fn(a, b=<default object>, *rest, k=<default object>)`"""
+            ns = {}; sig = []; names = []; defaults = {}
+            for q in c["params"]:
+                names.append(q["name"])
+                if q["kind"] == "var":
+                    sig.append("*" + q["name"]); continue
+                if q["kind"] == "kwonly" and not any(s.startswith("*") for s in sig):
+                    sig.append("*")
+                if "default" in q:
+                    defaults[q["name"]] = ns["_d_" + q["name"]] = mk(q["default"])
+                    sig.append(f"{q['name']}=_d_{q['name']}")
+                else:
+                    sig.append(q["name"])
+
+            def inner(received):
+                if extra is not None:
+                    extra["arrived"] = {k: desc(v) for k, v in received.items()}
+                    extra["same"] = {k: received[k] is defaults[k] for k in defaults}
+                xs = [x for x in leaves(list(received.values())) if numeric(x)]
+                if c["body"] == "echo":
+                    return list(received.values())
+                ints = [x for x in xs if not isinstance(x, (float, LinCombFxp))]
+                flts = [x for x in xs if isinstance(x, (float, LinCombFxp))]
+                acc = 0
+                for k, x in enumerate(ints): acc = acc + x * (k + 1)
+                if len(ints) > 1: acc = acc + ints[0] * ints[1]
+                return (acc, [q * 2 for q in flts])
+            ns["_inner"] = inner
+            exec(f"def fn({', '.join(sig)}):\n    return _inner({{{', '.join(repr(n) + ': ' + n for n in names)}}})\n", ns)
+            return ns["fn"], defaults
+
+        calls = []
+        for c in j["calls"]:
+            rec = {}; extra = {}
+            fn, defaults = make(c, extra)
+            args = tuple(mk(a) for a in c["args"])
+            kwargs = {k: mk(v) for k, v in c.get("kwargs", {}).items()}
+            dflt_before = {k: desc(v) for k, v in defaults.items()}
+            # probe (state discarded): which result leaves are secret when the PASSED numbers are circuit values
+            snap = (list(B.pubvals), list(B.privvals), list(B.constraints))
+            try:
+                from pysnark.fixedpoint import PrivValFxp
+                def conv(x):
+                    if isinstance(x, list): return [conv(y) for y in x]
+                    if isinstance(x, tuple): return tuple(conv(y) for y in x)
+                    if isinstance(x, dict): return {k: conv(v) for k, v in x.items()}
+                    if isinstance(x, float): return PrivValFxp(x)
+                    if isinstance(x, int): return PrivVal(x)
+                    return x
+                probe = make(c, None)[0](*conv(args))
+                rec["retkinds"] = ["X" if isinstance(x, LinCombFxp) else "B" if isinstance(x, LinCombBool) else "L" if isinstance(x, LinComb)
+                                   else "-" for x in leaves(probe) if numeric(x)]
+            except Exception:
+                rec["retkinds"] = None
+            finally:
+                B.pubvals[:] = snap[0]; B.privvals[:] = snap[1]; B.constraints[:] = snap[2]
+            np0, npr0, nc0 = len(B.pubvals), len(B.privvals), len(B.constraints)
+            try:
+                ret = snark(fn)(*args, **kwargs)
+                rec["status"] = "ok"; rec["ret"] = desc(ret)
+            except Exception as e:
+                rec["status"] = type(e).__name__
+            rec["pubs"] = B.pubvals[np0:]
+            rec["npriv"] = len(B.privvals) - npr0
+            links = []
+            for idx in range(len(B.pubvals) - np0):
+                k = np0 + 1 + idx
+                for (a, b, cc) in B.constraints[nc0:]:
+                    if not a.lc and not b.lc and cc.lc.get(k, 0) % p == p - 1 and max([q for q in cc.lc if q > 0], default=0) == k:
+                        links.append(idx); break
+            rec["links"] = links
+            rec["unsat"] = [i for i, (a, b, cc) in enumerate(B.constraints) if (W.ev(a, p) * W.ev(b, p) - W.ev(cc, p)) % p != 0][:3]
+            rec["arrived"] = extra.get("arrived"); rec["same"] = extra.get("same")
+            dflt_after = {k: desc(v) for k, v in defaults.items()}
+            if dflt_after != dflt_before:
+                rec["defaults_changed"] = [dflt_before, dflt_after]
+            try:
+                rec["plain"] = desc(make(c, None)[0](*tuple(mk(a) for a in c["args"]), **{k: mk(v) for k, v in c.get("kwargs", {}).items()}))
+            except Exception as e:
+                rec["plain"] = ["!", type(e).__name__]
+            calls.append(rec)
+        return f"{f[1]}|" + json.dumps({"calls": calls})
+    except BaseException as e:
+        if isinstance(e, (KeyboardInterrupt, SystemExit)): raise
+        return f"{f[1]}|" + json.dumps({"harness-error": f"{type(e).__name__}: {e}", "tb": traceback.format_exc().splitlines()[-3:]})
+
+
 def main():
     for line in sys.stdin:
         f = line.rstrip("\n").split("|", 2)
@@ -254,6 +376,9 @@ def main():
                 if isinstance(e, (KeyboardInterrupt, SystemExit)): raise
                 res = f"{g[1]}|err:{type(e).__name__}"
             sys.stdout.write(res + "\n"); sys.stdout.flush()
+            continue
+        if f[0] == "ND":                                      # decorated functions with default parameters (props/c17_defaults.py)
+            sys.stdout.write(handle_defaults(f) + "\n"); sys.stdout.flush()
             continue
         try:
             j = json.loads(f[2])
